@@ -24,6 +24,9 @@ structure D where
   fst : Id → FutState := fun _ => .idle
   /-- wake count of the future's waker when it was last polled -/
   seen : Id → Nat := fun _ => 0
+  /-- how many wakers operation `id` has been given so far (`waker k` lines); its current waker has the
+      identity `id * 64 + wk id` -/
+  wk : Id → Nat := fun _ => 0
   /-- epoll's ready list: registered descriptors that were found ready and not yet reported, in the order
       they were queued (wake-up order, resp. `epoll_ctl` order when ready at ADD / MOD time) -/
   rdl : List Nat := []
@@ -224,7 +227,7 @@ def D.pushRes (d : D) (id : Id) : D × Option Res :=
 
 /-- `Submit::poll` of the future of operation `id` with its own waker -/
 def D.futPoll (d : D) (id : Id) : D × PollOut :=
-  match submitPoll D.pushRes D.keys D.setKeys d (d.fst id) id id with
+  match submitPoll D.pushRes D.keys D.setKeys d (d.fst id) id (id * 64 + d.wk id) with
   | (d', st', out) => ({ d' with fst := upd d'.fst id st', seen := upd d'.seen id (d'.keys.woken id) }, out)
 
 /-- future mode: like an executor, poll exactly the futures whose waker was woken since their last poll -/
@@ -348,7 +351,18 @@ def stepLine (d : D) (w : List String) : D × String :=
       | p => withScan p
     | _, _ => (d, "bad-op")
   | ["waker", k] => match k.toNat? with
-    | some id => if d.fut then (d, "ok") else (d.setKeys (d.keys.setWaker id id), "ok")
+    | some id =>
+      -- every `waker k` line hands the operation a NEW waker (another task now owns it)
+      let d := { d with wk := upd d.wk id (d.wk id + 1) }
+      if d.fut then
+        -- future mode: the future is polled again under the new waker (`Submit::poll` → `update_waker`)
+        if !(d.live.contains id) then (d, "ok") else
+        match d.futPoll id with
+        | (d1, .ready r) =>
+          ({ d1 with live := d1.live.erase id },
+           s!"ok {id}={d1.showDone id r}:w{d1.keys.woken id + d1.keys.nudged id}")
+        | (d1, _) => (d1, "ok")
+      else (d.setKeys (d.keys.setWaker id (id * 64 + d.wk id)), "ok")
     | none => (d, "bad-op")
   | ["poll"] => withScan (d.pollOnce true)
   | ["settle"] => withScan (d.settle 64, "settled")
